@@ -6,7 +6,7 @@ S = os.path.join(os.path.dirname(os.path.dirname(os.path.abspath(__file__))), "s
 
 def title(meta, name):
     k = int(name.split("-")[1])
-    k = k if k <= 2 else k - 2
+    k = 1 if k % 2 == 1 else 2        # every sub-agent wrote two changes: stored as (1,2), (3,4), (5,6), ...
     r = meta.get("agent_readme", "")
     for l in r.splitlines():
         m = re.match(r"^#+\s*(?:Change|Patch|Mutation|Seeded change)\s*%d\b\s*[-:—(]*\s*(.*)$" % k, l.strip(), flags=re.I)
